@@ -166,6 +166,15 @@ CLAIMED["C14"] = dict(
            "as its first field; one identity scope per document. Not decided: pointer-equality classes after a round trip."),
     note=_NOTE, technique="static analysis: multi-way name / kind / accessor / field table agreement extracted from MIR, define-then-alias dominance")
 
+CLAIMED["C13"] = dict(
+    level=("Narrow static decision (PAIR): the 12 save/restore pairs of emitter layout state in the serializer (a YamlSerializer field "
+           "copied into a named local, swapped out through Option::replace / take, or bumped as a counter) are each written back on "
+           "every non-error path from the save to a return on which the field was overwritten — decided by an explicit path search "
+           "over the MIR CFG with same-predicate correlation; both *_with_options entry points validate and propagate "
+           "options.consistent() before constructing the serializer. Declared not applicable and NOT decided: well-formedness of "
+           "the emitted document and equality of the re-parsed value for every shape x option vector."),
+    note=_NOTE, technique="static analysis: save/restore pairing by path search over the MIR control-flow graph (branch-correlated)")
+
 NOT_APPLICABLE = {("C%02d" % i): _NB for i in range(1, 21) if ("C%02d" % i) not in CLAIMED}
 
 CLAIMED["C10"] = dict(
@@ -315,5 +324,14 @@ CLAIMED["C14"] = dict(
            "definition on first sight and the alias on later sights, and every wrapper writes the allocation's address (as_ptr) "
            "as its first field; one identity scope per document. Not decided: pointer-equality classes after a round trip."),
     note=_NOTE, technique="static analysis: multi-way name / kind / accessor / field table agreement extracted from MIR, define-then-alias dominance")
+
+CLAIMED["C13"] = dict(
+    level=("Narrow static decision (PAIR): the 12 save/restore pairs of emitter layout state in the serializer (a YamlSerializer field "
+           "copied into a named local, swapped out through Option::replace / take, or bumped as a counter) are each written back on "
+           "every non-error path from the save to a return on which the field was overwritten — decided by an explicit path search "
+           "over the MIR CFG with same-predicate correlation; both *_with_options entry points validate and propagate "
+           "options.consistent() before constructing the serializer. Declared not applicable and NOT decided: well-formedness of "
+           "the emitted document and equality of the re-parsed value for every shape x option vector."),
+    note=_NOTE, technique="static analysis: save/restore pairing by path search over the MIR control-flow graph (branch-correlated)")
 
 NOT_APPLICABLE = {("C%02d" % i): _NB for i in range(1, 21) if ("C%02d" % i) not in CLAIMED}
